@@ -646,7 +646,7 @@ func c10PathOpts(route int) message.Options {
 // datagram above the UDP limit): such a call returns the write error at once, and afterwards its token must be
 // as free as before -- responses carrying it go to whoever holds it now (or to the application), and the same
 // request can be issued again.  After a failed call the generator prefers its token for the following steps.
-func c10DiscRun(seed uint64, fail bool) (string, error) {
+func c10DiscRun(seed uint64, fail bool, pad bool) (string, error) {
 	rng := NewRng(seed)
 	app := newC10App()
 	network := "udp4"
@@ -695,6 +695,27 @@ func c10DiscRun(seed uint64, fail bool) (string, error) {
 	mid := 3000
 	tag := 0
 	tokens := [][]byte{{0xD1, 1}, {0xD2, 2, 2}, {0xD3}, {0xD4, 4, 4, 4}}
+	var respOnly [][]byte // tokens only responses carry (a discovery request needs a non-empty token)
+	if pad {
+		// one byte string with 0, 1, 2, ... zero bytes in front: different tokens (of different lengths), each of
+		// which may be registered by a request of its own and carried by responses of any responder
+		base := make([]byte, 1+rng.Intn(3))
+		for i := range base {
+			base[i] = byte(1 + rng.Intn(255))
+		}
+		full := append(make([]byte, 8-len(base)), base...)
+		tokens = [][]byte{base, append([]byte{0}, base...), append([]byte{0, 0}, base...), full}
+		if rng.Bool() {
+			// ... and two more near misses of the 8-byte token: its first seven bytes, and a sibling that differs in the last bit
+			sib := append([]byte{}, full...)
+			sib[7] ^= 1
+			tokens = append(tokens, full[:7], sib)
+		}
+		if rng.Bool() {
+			tokens = append(tokens, []byte{0}, []byte{0, 0})
+			respOnly = [][]byte{{}}
+		}
+	}
 	appCount := func() int {
 		app.mu.Lock()
 		defer app.mu.Unlock()
@@ -725,13 +746,16 @@ func c10DiscRun(seed uint64, fail bool) (string, error) {
 			mu.Unlock()
 		}
 	}
-	if fail {
+	if fail || pad {
 		nsteps += 6
 	}
 	for i := 0; i < nsteps; i++ {
 		k := rng.Intn(10)
 		if fail && (i == 1 || rng.Chance(25)) {
 			k = 10
+		}
+		if pad && k == 4 {
+			k = 9 // fewer requests end early: more responses meet a request in progress with a sibling token
 		}
 		switch {
 		case k == 10: // a discovery request whose datagram cannot be sent
@@ -843,6 +867,9 @@ func c10DiscRun(seed uint64, fail bool) (string, error) {
 			tok := pickTok()
 			if rng.Chance(15) {
 				tok = []byte{0x77, byte(i)}
+			}
+			if len(respOnly) > 0 && rng.Chance(15) {
+				tok = respOnly[rng.Intn(len(respOnly))]
 			}
 			tag++
 			mid++
